@@ -106,6 +106,7 @@ type c13Rec struct {
 	nAfter  int
 	abort   chan struct{}
 	endedCh chan struct{} // closed when the session terminates on the SDK's initiative
+	g0      int           // goroutines in the process when the scenario started
 }
 
 // awaitEnd blocks until the session has terminated on its own or the owner's closing
@@ -121,7 +122,11 @@ func (r *c13Rec) awaitEnd() {
 // census records how many keep-alive goroutines exist now (everything has settled).
 func (r *c13Rec) census() {
 	synctest.Wait()
-	_, _, ka := c13Bubble()
+	ka := 0
+	if runtime.NumGoroutine() != r.g0 {
+		// something is still there: look at the goroutine dump (only goroutines of this bubble count)
+		_, _, ka = c13Bubble()
+	}
 	r.mu.Lock()
 	r.obs.KAAlive, r.obs.Settle = ka, r.us()
 	r.mu.Unlock()
@@ -188,9 +193,12 @@ func (r *c13Rec) userTime() time.Duration {
 type c13Pinger struct {
 	r      *c13Rec
 	cancel *context.CancelFunc
+	calls  sync.WaitGroup // outstanding Ping calls
 }
 
 func (s *c13Pinger) Ping(ctx context.Context, _ *PingParams) error {
+	s.calls.Add(1)
+	defer s.calls.Done()
 	p, idx := s.r.next(ctx)
 	var err error
 	switch p.O {
@@ -256,7 +264,9 @@ func c13RunFunc(r *c13Rec, thr int) {
 		o.UserClose = r.us()
 		o.Ended = o.UserClose
 		r.mu.Unlock()
+		// what Close of a real session does: cancel keep-alive, then wait for outstanding calls
 		cancel()
+		sess.calls.Wait()
 	} else {
 		r.mu.Unlock()
 	}
@@ -514,6 +524,7 @@ func c13Scenario(t *testing.T, c c13Case, level string, seed uint64) (o *c13Obs)
 	synctest.Test(t, func(t *testing.T) {
 		r := &c13Rec{t0: time.Now(), ivl: ivl, pattern: c.Pattern, rng: rng, obs: o, abort: make(chan struct{}), endedCh: make(chan struct{})}
 		g0 := runtime.NumGoroutine()
+		r.g0 = g0
 		if level == "func" {
 			c13RunFunc(r, c.T)
 		} else if err := c13RunSession(r, c.T, level); err != nil {
